@@ -96,3 +96,22 @@ Example ez_chain_ok : chain_ok false [MAlias [s "dials"]; MReformat (s "dials") 
 Proof. simpl. unfold stage_ok. simpl. intuition. Qed.
 Example ex_type_wf : wf_fields (ptrify_fields ex_raw) = true.
 Proof. reflexivity. Qed.
+
+(* the hypotheses of flag_chain_lossless / env_chain_lossless are satisfiable:
+   the example type is simple and has no alias on an embedded field, and the env
+   chain has the shape the theorem speaks about *)
+From Dials Require Import Transform.CounterpartSpec Transform.AliasSpecProofs Transform.EnvChainProofs.
+Example ex_type_simple : simple_fields (ptrify_fields ex_raw) = true.
+Proof. reflexivity. Qed.
+Example ex_type_alias_ok : alias_ok_fields [s "dials"; s "dialsenv"] (ptrify_fields ex_raw) = true.
+Proof. reflexivity. Qed.
+Example env_chain_shape :
+  env_chain = MAlias [s "dials"; s "dialsenv"] :: MFlatten (s "dials") 0 0 ::
+              [MReformat (s "dials") 7 3; MTagCopy (s "dials") (s "dialsenv")] ++ [MStrCast] /\
+  Forall (fun m => is_tagstage m = true) [MReformat (s "dials") 7 3; MTagCopy (s "dials") (s "dialsenv")].
+Proof. split; [reflexivity | repeat constructor]. Qed.
+(* and the specification computes the same as the model on the example of above *)
+Example ex_spec_agrees :
+  omap (fun r => counterpart_spec ex_env env_chain ex_t (fst r) [VNil; sp "bob"; sp "8080"; sp "3"; VNil]) ex_tr =
+  Ok (Some (ex_reverse [VNil; sp "bob"; sp "8080"; sp "3"; VNil])).
+Proof. vm_compute. reflexivity. Qed.
